@@ -307,6 +307,11 @@ def run(rep):
             it = l.iter
             if isinstance(it, ast.Call) and call_name(it) == 'enumerate' and it.args and not any(k.arg is None for k in it.keywords):
                 it = it.args[0]
+            elif isinstance(it, ast.Call) and call_name(it) == 'zip' and not it.keywords:
+                # zip(count(index), bound_routes): positions paired with the list
+                rest = [a for a in it.args if not (isinstance(a, ast.Call) and call_name(a) in ('itertools.count', 'count', 'range'))]
+                if len(rest) == 1 and len(it.args) == 2:
+                    it = rest[0]
             for lf in afl.leaves(it, l):
                 v = lf.value
                 srcs.append(lf)
@@ -373,7 +378,73 @@ def run(rep):
             rep.check('R11.c', 'writer::%s::%s' % (fi.key, norm(e.node)[:70]), ok, 'set-up write of a routing table' if ok else
                       '%s writes a routing table' % fi.key, m, e.node)
     rep_guard(r11c)
-    rep_guard(rep.floor, 'R11.c', 2)
+
+    def requested_index():
+        """The first new route goes to the requested position: the ``index`` argument when one was given (0 included),
+        the end of the table otherwise -- whichever way the position is carried (running local, base + enumerate offset,
+        zip(count(base), ..), enumerate(.., base))."""
+        from .c10 import Prop, Unknown
+
+        def position_of(ad, fl, pr, idx, call, given):
+            st = stmt_of(app, call)
+            loops = [l for l in stmts_of(ad.node) if isinstance(l, ast.For) and st in stmts_of(l)]
+            if len(loops) != 1:
+                raise AnalysisError('Application.add: the insertion is not inside one loop')
+            loop = loops[0]
+            pos = call.args[0]
+            # loop-carried positions: element of enumerate(..) / zip(count(base), ..) targets
+            counter, base = None, None
+            it = loop.iter
+            tg = loop.target.elts if isinstance(loop.target, ast.Tuple) else []
+            if isinstance(it, ast.Call) and call_name(it) == 'enumerate' and tg and isinstance(tg[0], ast.Name):
+                counter = tg[0].id
+                base = it.args[1] if len(it.args) > 1 else next((k.value for k in it.keywords if k.arg == 'start'), None)
+            elif isinstance(it, ast.Call) and call_name(it) == 'zip' and len(it.args) == len(tg):
+                for a, t in zip(it.args, tg):
+                    if isinstance(a, ast.Call) and call_name(a) in ('itertools.count', 'count') and isinstance(t, ast.Name):
+                        counter, base = t.id, (a.args[0] if a.args else ast.Constant(value=0))
+            if counter is not None and isinstance(pos, ast.Name) and pos.id == counter and base is not None:
+                start_expr = base                                       # for pos, br in zip(count(base), ..) / enumerate(.., base)
+            elif counter is not None and base is None and isinstance(pos, ast.BinOp) and isinstance(pos.op, ast.Add) and \
+                    counter in (norm(pos.left), norm(pos.right)):
+                start_expr = pos.right if norm(pos.left) == counter else pos.left     # insert(base + offset, ..), enumerate from 0
+            elif isinstance(pos, ast.Name):
+                start_expr = pos                                        # running local, advanced in the loop
+            else:
+                raise AnalysisError('Application.add: insertion position %s not understood' % short(pos, 40))
+            lv = [l for l in fl.leaves(start_expr, loop) if not (isinstance(l.stmt, ast.AST) and l.stmt in stmts_of(loop))]
+            try:
+                ok = bool(lv)
+                for l in lv:
+                    txt = fl.text(l.value, l.stmt) if isinstance(l.stmt, ast.AST) else norm(l.value)
+                    prem = pr.conds(l.conds)
+                    if not l.opaque and txt == idx:
+                        ok = ok and pr.implies(prem, given)
+                    elif not l.opaque and txt == 'len(self.routes)':
+                        ok = ok and pr.implies(prem, ('n', given))
+                    else:
+                        ok = False
+            except Unknown as e:
+                raise AnalysisError('Application.add: conditions of the insertion position not understood (%s)' % e)
+            return ok, lv, st
+        ad = app.func('Application.add')
+        fl = Flow(ad)
+        pr = Prop(fl)
+        idx = ad.params()[2] if len(ad.params()) > 2 else None
+        ins_all = [c for c in walk_body(ad.node) if isinstance(c, ast.Call) and norm(c.func) == 'self.routes.insert' and len(c.args) == 2]
+        if idx is None or not ins_all:
+            raise AnalysisError('Application.add: the index parameter / a self.routes.insert(position, route) call not found')
+        given = ('n', ('a', '%s is None' % idx))
+        ok, seen_leaves, st = True, [], None
+        for one in ins_all:
+            ok1, lv, st = position_of(ad, fl, pr, idx, one, given)
+            ok = ok and ok1
+            seen_leaves += lv
+        lv = seen_leaves
+        rep.check('R11.c', fkey(ad, 'requested index'), ok, 'the first new route goes to the given index (0 included), or to the end when none was given' if ok else
+                  'the insertion position is not "index if one was given, else len(self.routes)": %s' % [short(l.value, 40) for l in lv], app, st)
+    rep_guard(requested_index)
+    rep_guard(rep.floor, 'R11.c', 3)
 
     # ---- R11.d -----------------------------------------------------------
     def r11d():
